@@ -185,7 +185,7 @@ def r2_lossy_ins(c, facts):
                 or q.startswith('oal_compiler::<s') or fn.crate == 'oal_openapi'):
             continue
         nfn += 1
-        base = re.sub(r'::\{closure#\d+\}', '', q)
+        base = facts.home(fn).qname
         for b, t in fn.calls():
             info = callee_of(t)
             if not info:
@@ -354,7 +354,11 @@ def r13_merged_assign(c, facts, rule='C02.R13'):
         if not (q.startswith('oal_compiler::eval') or q.startswith('oal_compiler::spec') or q.startswith('oal_compiler::stdlib')
                 or q.startswith('oal_compiler::<s') or fn.crate == 'oal_openapi'):
             continue
-        base = re.sub(r'::\{closure#\d+\}', '', q)
+        base = facts.home(fn).qname
+        if '{closure' not in q:
+            if facts.home(fn).id != fn.id:
+                continue            # a new private helper: looked at inside its caller (normalised view)
+            fn = facts.normalised(fn)
         for b, t in fn.calls():
             info = callee_of(t)
             if not info or info['def'].split('::')[-1] not in GETTERS:
@@ -700,7 +704,6 @@ def r6_enum_map(c, facts):
         ('oal_compiler::eval::eval_primitive', 'PrimitiveKind', lambda v, t: ({'Bool': 'primboolean', 'Int': 'priminteger', 'Num': 'primnumber', 'Str': 'primstring', 'Uri': 'uri'}.get(v, '#') in low(t)), 'primitive kind -> schema value'),
         ('oal_compiler::eval::eval_literal', 'LiteralKind', lambda v, t: True, 'literal kind (checked in C01)'),
         ('oal_openapi::Builder::value_schema', 'SchemaExpr', lambda v, t: low(t).startswith({'Num': 'number', 'Str': 'string', 'Bool': 'boolean', 'Int': 'integer', 'Rel': ('rel', 'uri'), 'Uri': 'uri', 'Object': 'object', 'Array': 'array', 'Op': '', 'Ref': ''}.get(v, '#')), 'schema expression -> schema builder'),
-        ('oal_openapi::Builder::value_schema', 'VariadicOperator', lambda v, t: low(t).startswith({'Join': 'join', 'Sum': 'sum', 'Any': 'any', 'Range': ''}.get(v, '#')), 'operator -> composition builder'),
         ('oal_compiler::eval::cast_schema', 'Expr', frozen({'Object': 'Object', 'PrimInteger': 'Int', 'PrimNumber': 'Num', 'PrimString': 'Str', 'PrimBoolean': 'Bool', 'Array': 'Array', 'Uri': 'Uri', 'VariadicOp': 'Op', 'Reference': 'Ref', 'Relation': 'Rel', 'Recursion': 'Ref'}), 'value -> schema expression'),
     ]
     for q, ty, pred, what in TABLES:
@@ -719,17 +722,45 @@ def r6_enum_map(c, facts):
             else:
                 c.bad(R, '%s:%s->%s' % (q.split('::', 1)[1], v, re.sub(r'[^A-Za-z0-9=()]', '', t)[:40]),
                       '%s maps %s to %s: this disagrees with the language definition / the sibling tables (%s)' % (q, v, t, what), **inst)
-    # composition builders
-    for q, kind in (('oal_openapi::Builder::join_schema', 'AllOf'), ('oal_openapi::Builder::sum_schema', 'OneOf'), ('oal_openapi::Builder::any_schema', 'AnyOf')):
-        fn = facts.fn(q)
-        if fn is None:
-            c.bad(R, 'anchor-missing:' + q, '%s not found' % q)
+    # operator -> composition keyword: whichever function of the emitter dispatches on the operator, each arm builds
+    # (itself, in a closure, or in the builder function it calls) exactly the SchemaKind of the language definition
+    from facts import hir_walk, pat_variants, variant_of, callee_id
+    WANT = {'Join': 'AllOf', 'Sum': 'OneOf', 'Any': 'AnyOf'}
+
+    def kinds_built_by(fn2, depth=0):
+        out = set()
+        for g in [fn2] + list(facts.closures_of(fn2)):
+            if g.mir:
+                out |= {st['rv']['variant'] for b, blk in g.blocks() for st in blk['stmts'] if st['s'] == 'assign' and st['rv']['r'] == 'aggr' and (st['rv'].get('adt') or '').endswith('SchemaKind')}
+        return out
+    got = {}
+    for fn in sorted(facts.fns.values(), key=lambda f: f.qname):
+        if fn.crate != 'oal_openapi' or not fn.hir or '{closure' in fn.qname:
             continue
-        got = sorted({s['rv']['variant'] for b, blk in fn.blocks() for s in blk['stmts'] if s['s'] == 'assign' and s['rv']['r'] == 'aggr' and s['rv'].get('adt', '').endswith('SchemaKind')})
-        if got == [kind]:
-            c.ok(R, {'table': q.split('::')[-1], 'to': kind})
+        for e, anc in hir_walk(fn.hir['body']):
+            if e['k'] != 'match' or e.get('src') != 'Normal' or 'VariadicOperator' not in e['scrut']['ty']:
+                continue
+            for arm in e['arms']:
+                built = set()
+                for x, _ in hir_walk(arm['body']):
+                    if x['k'] == 'struct' and 'SchemaKind' in (x.get('ty') or ''):
+                        built.add(variant_of(x['path']))
+                    elif x['k'] in ('call', 'mcall'):
+                        h = facts.fns.get(callee_id(x))
+                        if h is not None and h.crate == 'oal_openapi' and h.id != fn.id:
+                            built |= kinds_built_by(h)
+                for v in pat_variants(arm['pat']):
+                    if v in WANT:
+                        got.setdefault(v, set()).update(built & set(WANT.values()) | {k for k in built if k in ('AllOf', 'OneOf', 'AnyOf', 'Not')})
+    for v, kind in sorted(WANT.items()):
+        g_ = sorted(got.get(v, set()))
+        inst = {'table': 'operator -> composition keyword', 'from': v, 'to': g_}
+        if g_ == [kind]:
+            c.ok(R, inst)
+        elif not g_:
+            c.bad(R, 'operator-schema:%s:not-found' % v, 'no dispatch on the operator builds a composition schema for %s any more' % v, **inst)
         else:
-            c.bad(R, '%s:%s' % (q.split('::')[-1], ','.join(got)), '%s builds %s instead of %s' % (q, got, kind))
+            c.bad(R, 'operator-schema:%s->%s' % (v, ','.join(g_)), 'the emitter builds %s for the operator %s instead of %s' % (g_, v, kind), **inst)
 
 
 # ------------------------------------------------------------------------------------------- R7 FALLBACK-ORDER
